@@ -3,12 +3,12 @@ CONSTANTS
   NG = 1
   NO = 1
   ND = 2
-  NP = 2
-  Names = {"a", "b"}
+  NP = 1
+  Names = {"a"}
   Vals = {1}
-  Acts = {"CreateGroup", "CreateObject", "AddData", "AddToGroup", "SetFlag", "RemoveViaWorkspace", "RemoveViaParent", "RemovePG", "Close", "Open", "Copy", "DropRef", "Collect", "Purge", "LookupDead"}
+  Acts = {"CreateGroup", "CreateObject", "AddVisual", "AddComment", "AddFile", "RemoveViaWorkspace", "RemoveViaParent", "Copy", "Close", "Open", "DropRef", "Collect", "Purge", "LookupDead"}
   Deviations = {"CloseKeepsOrphans"}
-  MaxDepth = 6
+  MaxDepth = 5
 CONSTRAINT DepthBound
 VIEW vw
 INVARIANT TypeOK
